@@ -126,6 +126,37 @@ func init() {
 		}
 		return in.rtypeIface(iv.T)
 	})
+	sortSlice := func(in *Interp, fn *ssa.Function, args []Value) Value {
+		iv := args[0].(*IfaceV)
+		if iv == nil || iv.T == nil {
+			in.gopanic("sort.Slice: nil slice")
+		}
+		st, ok := iv.T.Underlying().(*types.Slice)
+		if !ok {
+			in.gopanic("sort.Slice: not a slice")
+		}
+		sl := iv.V.(SliceV)
+		es := sizeof(st.Elem())
+		less := args[1]
+		c := in.ctx
+		// insertion sort (stable); for a strict total order the result is the unique sorted permutation
+		tmp := in.newObject(es, st.Elem(), "sort.tmp")
+		at := func(i int) Ptr { return Ptr{sl.P.ID, sl.P.Off + i*es} }
+		for i := 1; i < sl.Len; i++ {
+			for j := i; j > 0; j-- {
+				r := in.callValue(less, []Value{c.Const(64, uint64(j)), c.Const(64, uint64(j-1))}, nil).(*Term)
+				if !in.branch(r) {
+					break
+				}
+				in.memmove(tmp, at(j), es)
+				in.memmove(at(j), at(j-1), es)
+				in.memmove(at(j-1), tmp, es)
+			}
+		}
+		return nil
+	}
+	reg("sort.Slice", sortSlice)
+	reg("sort.SliceStable", sortSlice)
 	reg("reflect.rtype.Kind", func(in *Interp, fn *ssa.Function, args []Value) Value {
 		return in.ctx.Const(64, reflectKind(in.rtypeArg(args[0])))
 	})
